@@ -217,5 +217,18 @@ def obligations(tier, seed):
     add("vmapped-builder", lambda vv, j: (jax.vmap(lambda e: C["x"].set(e))(vv), RM.leaf(vv).extend("x")), (vec, jnp.int32(2)), idxs=(None, 1), assume=inr(1),
         note="jax.vmap of a builder gives a vectorised (un-indexed) map: a dynamic index j addresses element j (0 <= j < 3)")
     add("vmapped-entry-idx", lambda vv, j: (jax.vmap(lambda i, e: ChoiceMap.entry(e, i, "x"))(jnp.arange(3), vv), RM.leaf(vv).extend("x").extend(("vec", 3))), (vec, jnp.int32(2)), idxs=(1,))
-    add("index-masked", lambda vv, f, j: (C[jnp.arange(3), "x"].set(vv).mask(f) | C["y"].set(vv * 2.0), (RM.leaf(vv).extend("x").extend(("vec", 3)).mask(f)) | RM.leaf(vv * 2.0).extend("y")), (vec, T, jnp.int32(2)), idxs=(None, 2), assume=inr(2))
+    # ---- retained Or nodes (operands with index levels are not merged eagerly): the left bias must survive filter / mask / at-set
+    ior = lambda a, b, i0, i1: C[i0, "x"].set(a) | C[i1, "x"].set(b)  # noqa: E731
+    ior_ref = lambda a, b, i0, i1: RM.leaf(a).extend("x").extend(("eq", i0)) | RM.leaf(b).extend("x").extend(("eq", i1))  # noqa: E731
+    i4 = (v1, v2, I, jnp.int32(0), jnp.int32(2))
+    add("indexed|indexed", lambda a, b, i0, i1, j: (ior(a, b, i0, i1), ior_ref(a, b, i0, i1)), i4, idxs=(4,),
+        note="C[i0,'x'].set(a) | C[i1,'x'].set(b) at [j,'x'] for ALL integers i0, i1, j: a when j == i0 (also when i0 == i1), else b when j == i1")
+    add("filter(indexed|indexed)", lambda a, b, i0, i1, j: (ior(a, b, i0, i1).filter(S.at["x"]), ior_ref(a, b, i0, i1)), i4, idxs=(4,),
+        note="filter on a retained Or keeps the left bias")
+    add("mask(indexed|indexed)", lambda a, b, i0, i1, f, j: (ior(a, b, i0, i1).mask(f), ior_ref(a, b, i0, i1).mask(f)), (v1, v2, I, jnp.int32(0), T, jnp.int32(2)), idxs=(5,),
+        note="mask on a retained Or keeps the left bias")
+    add("filter(at-set-on-indexed)", lambda a, b, c, i0, j: ((C[i0, "x"].set(a) | C[i0, "y"].set(b)).at[i0, "x"].set(c).filter(S.at["x"]),
+                                                           (RM.leaf(c).extend("x").extend(("eq", i0)) | RM.leaf(a).extend("x").extend(("eq", i0)))), (v1, v2, v3, I, jnp.int32(2)), idxs=(4,),
+        note=".at[i0,'x'].set(c) overrides the earlier value at that address, also after a filter")
+    add("index-masked",lambda vv, f, j: (C[jnp.arange(3), "x"].set(vv).mask(f) | C["y"].set(vv * 2.0), (RM.leaf(vv).extend("x").extend(("vec", 3)).mask(f)) | RM.leaf(vv * 2.0).extend("y")), (vec, T, jnp.int32(2)), idxs=(None, 2), assume=inr(2))
     return obs
